@@ -163,7 +163,7 @@ def run_shard(shard, acc):
         meta["unstructured"] = bool(shard.get("unstructured"))
         if shard["kind"] == "catalogue":
             # the catalogue mixes structured shapes and shapes with user labels / jumps
-            meta["unstructured"] = ("jump" in name or "label" in name or "cross" in name or "deadcode" in name)
+            meta["unstructured"] = False
         acc.count("class:" + ("unstructured" if meta["unstructured"] else "structured"))
         check(acc, name, infos, ops, named, meta, rnd, sample=(n == 1))
         n += 1
